@@ -604,7 +604,7 @@ async def stdio_client(
         for exc in eg.exceptions:
             if not isinstance(exc, anyio.get_cancelled_exc_class()):
                 error_msg = str(exc)
-                if "cancel scope" in error_msg.lower():
+                if isinstance(exc, RuntimeError) and "cancel scope" in error_msg.lower():
                     logger.debug(
                         f"stdio_client cancel scope issue (expected during shutdown): {exc}"
                     )
@@ -618,7 +618,10 @@ async def stdio_client(
         # Handle regular exceptions
         if not isinstance(e, anyio.get_cancelled_exc_class()):
             error_msg = str(e)
-            if "cancel scope" in error_msg.lower():
+            # Only anyio's own RuntimeError about cancel scopes is a shutdown
+            # artefact; any other exception that merely mentions the words (for
+            # example a server error message) must reach the caller
+            if isinstance(e, RuntimeError) and "cancel scope" in error_msg.lower():
                 logger.debug(
                     f"stdio_client cancel scope issue (expected during shutdown): {e}"
                 )
@@ -694,7 +697,7 @@ async def stdio_client_with_initialize(
         for exc in eg.exceptions:
             if not isinstance(exc, anyio.get_cancelled_exc_class()):
                 error_msg = str(exc)
-                if "cancel scope" in error_msg.lower():
+                if isinstance(exc, RuntimeError) and "cancel scope" in error_msg.lower():
                     logger.debug(
                         f"stdio_client_with_initialize cancel scope issue (expected): {exc}"
                     )
@@ -710,7 +713,10 @@ async def stdio_client_with_initialize(
         # Handle regular exceptions
         if not isinstance(e, anyio.get_cancelled_exc_class()):
             error_msg = str(e)
-            if "cancel scope" in error_msg.lower():
+            # Only anyio's own RuntimeError about cancel scopes is a shutdown
+            # artefact; any other exception that merely mentions the words (for
+            # example a server error message) must reach the caller
+            if isinstance(e, RuntimeError) and "cancel scope" in error_msg.lower():
                 logger.debug(
                     f"stdio_client_with_initialize cancel scope issue (expected): {e}"
                 )
